@@ -132,7 +132,7 @@ def _find_args(rng, dirtype=None):
     return a
 
 
-def gen_ext(rng, spec):
+def gen_ext(rng, spec, force=None):
     ext = {'project': None, 'srcname': 'src', 'scopes': [''], 'options': {}, 'conf_args': [],
            'files': {}, 'bld_files': {}, 'items': [], 'nodist_dag': []}
     r = rng.random()
@@ -381,6 +381,13 @@ def gen_ext(rng, spec):
         cands = [p for p in cands if not (catchall and '/' not in p and p.endswith('.c'))]
         if cands:
             ext['nodist_dag'] = [rng.choice(cands)]
+    if force:
+        # a run-wide rotation of find-argument combinations that random drawing makes rare
+        # (uncached searches with extra= / a not_now filter, with and without dist=False)
+        for it in ext['items']:
+            if it['k'] == 'find' and len(it['patterns']) == 1 and it['patterns'][0].startswith('xg'):
+                it.update(force)
+                break
     return ext
 
 
